@@ -311,6 +311,10 @@ pub fn generate(rng: &mut Rng, tier: &str, w: &mut CaseWriter) {
             }
         }
     }
+    // the oracle premises (H_magic, H_prefix, H_whole) on the real libraries
+    for _ in 0..(if thorough { 400 } else { 40 }) {
+        w.push("hz", vec![rng.next().to_string()]);
+    }
     // random windows, biased towards magic-like starts
     let n = if thorough { 3000 } else { 150 };
     for _ in 0..n {
@@ -331,7 +335,41 @@ pub fn generate(rng: &mut Rng, tier: &str, w: &mut CaseWriter) {
     }
 }
 
+/// the three oracle premises of the theorems, on the real BGZF writer and flate2 decoder
+fn run_hz(c: &Case) -> Obs {
+    let mut rng = Rng::new(c.u(0));
+    let len = match rng.below(4) {
+        0 => rng.range(0, 8) as usize,
+        1 => rng.range(0, 300) as usize,
+        2 => rng.range(65000, 66000) as usize,
+        _ => rng.range(0, 200000) as usize,
+    };
+    let payload: Vec<u8> = if rng.chance(1, 2) { rng.bytes(len) } else { (0..len).map(|i| b"ACGT\n@"[i % 6]).collect() };
+    let s = bgzf_of(&payload);
+    if !(s.len() >= 2 && s[0] == 0x1f && s[1] == 0x8b) {
+        return Obs::fail("-", "oracle-premise-magic", hex(&s[..s.len().min(4)]));
+    }
+    let (whole, stop) = gz_oracle(&s, usize::MAX);
+    if whole != payload || stop != "UnexpectedEof" {
+        return Obs::fail("-", "oracle-premise-whole", format!("payload {} bytes, decoder {} bytes then {stop}", payload.len(), whole.len()));
+    }
+    let mut cuts: Vec<usize> = (0..40.min(s.len())).collect();
+    for _ in 0..12 {
+        cuts.push(rng.range(0, s.len() as u64) as usize);
+    }
+    for m in cuts {
+        let (a, _) = gz_oracle(&s[..m.min(8192)], usize::MAX);
+        if !payload.starts_with(&a) {
+            return Obs::fail("-", "oracle-premise-prefix", format!("window {m} of {}", s.len()));
+        }
+    }
+    Obs::ok("-", !payload.is_empty())
+}
+
 pub fn run(c: &Case) -> Obs {
+    if c.kind == "hz" {
+        return run_hz(c);
+    }
     let variantside = c.kind.starts_with("dv");
     let w = c.b(1);
     let mut obs = observe(variantside, &c.args[0], &w);
